@@ -415,6 +415,12 @@ func clip(s string) string {
 func framingTag(m *msggen.Msg) string {
 	t := m.Spec.Framing
 	if len(m.Encoded) == 0 {
+		// Content-Length: 0 and "no framing header at all" are one class: both parse to http.NoBody. (When that
+		// marker is lost, net/http probes the body of GET-like requests with a 200 ms timer, so on a loaded
+		// machine they are re-framed as well; POST/PUT always are.)
+		if t == "none" || t == "cl" {
+			t = "unchunked"
+		}
 		t = "empty_body(" + t + ")"
 	}
 	if m.Spec.Trailers > 0 {
@@ -706,7 +712,7 @@ func main() {
 					violate(fmt.Sprintf("%s:%s:skip_logging:logger_error", v.Family, spec.Kind), fmt.Sprintf("%s with %s (skip-logging set): error %v", spec, v.Name, a.err), rc)
 				default:
 					if n := a.recorded(); n > 0 {
-						violate(fmt.Sprintf("%s:%s:skip_logging:recorded", strings.TrimSuffix(strings.Replace(v.Name, "(", "_", 1), ")"), spec.Kind),
+						violate(fmt.Sprintf("%s:%s:skip_logging:recorded", skipName(v), spec.Kind),
 							fmt.Sprintf("%s with %s: the context is marked skip-logging, yet %d record(s) were produced", spec, v.Name, n), rc)
 					}
 					if sym, detail := diff(got, twins[0]); sym != "" {
@@ -844,6 +850,15 @@ func sized(mode readMode, m *msggen.Msg) readMode {
 		mode.N = 61
 	}
 	return mode
+}
+
+// skipName is the component named in skip-logging signatures (the marbl Stream API has no context, so only
+// its Modifier can honour the flag).
+func skipName(v variant) string {
+	if v.Name == "marbl(modifier)" {
+		return "marbl_modifier"
+	}
+	return v.Family
 }
 
 func tail(b []byte) string {
